@@ -152,7 +152,7 @@ class Model:
         for path, cont in getc.items():
             adt = self.adts[path]
             cpath = (cont or "").split("<")[0]
-            if cpath not in self.adts:
+            if cpath not in self.adts or cpath == TG + "CGlueObjContainer":
                 continue
             grp = out.setdefault(cpath, Group())
             grp.container = self.adts[cpath]
